@@ -147,10 +147,11 @@ Definition run_roundtrip_case (args : list bytes) : bytes :=
   let cf := undec0 (g 0%nat) in
   let xf := undec0 (g 1%nat) in
   let t := map parse_item (list_field (g 2%nat)) in
-  let order := map fst t in
+  let walk := map fst t in                 (* the items are listed in walk order; a path walked again is listed again *)
+  let order := uniq_paths walk in
   let c := mk_copts (testbit cf 0) (testbit cf 1) (testbit cf 2) (testbit cf 3) in
   let o := mk_xopts (testbit xf 0) (testbit xf 1) (testbit xf 2) (testbit xf 3) true in
-  let arch := create_from_tree c order t in
+  let arch := create_from_walk c walk t in
   let (f1, ok) := extract_run o rt_out arch (empty_dir rt_out) in
   let items := sort_by (fun e => join [slash] (fst e)) (tree_of c o rt_out order f1) in
   lit "OK " ++ cat [(if ok then lit "0" else lit "1"); list_or_dash (map show_item items)].
